@@ -201,6 +201,8 @@ pub struct Diag(pub u32);
 #[cfg_attr(feature = "persist", derive(serde::Serialize, serde::Deserialize))]
 pub struct Out<'db> {
     pub v: u32,
+    /// durability the producing execution accumulated (harness bookkeeping, not part of equality)
+    pub dur: u8,
     pub ents: Vec<Ent<'db>>,
     pub syms: Vec<SymAny<'db>>,
     pub tok: Tok,
@@ -223,7 +225,7 @@ impl<'db> Out<'db> {
         }
     }
     fn bare(v: u32) -> Out<'db> {
-        Out { v, ents: vec![], syms: vec![], tok: Tok::default() }
+        Out { v, dur: 3, ents: vec![], syms: vec![], tok: Tok::default() }
     }
 }
 
@@ -248,6 +250,10 @@ pub struct Ctx {
     pub exec_budget: AtomicUsize,
     /// also log `WillCheckCancellation` events (coop engine, C21)
     pub log_check_cancel: std::sync::atomic::AtomicBool,
+    /// current durability of every input field (0 LOW .. 3 NEVER_CHANGE), kept by `World`
+    pub field_durs: Mutex<Vec<[u8; 2]>>,
+    /// durability each tracked struct was (re-)created with, by struct id
+    pub ent_durs: Mutex<HashMap<u64, u8>>,
 }
 
 #[derive(Clone, Copy, Debug, PartialEq, Eq)]
@@ -525,6 +531,8 @@ struct Frame<'db> {
     occ: HashMap<u32, u32>,
     rec: ExecRec,
     any_read: bool,
+    /// running durability, salsa's rule: min over everything read so far (3 = NEVER_CHANGE)
+    dur: u8,
 }
 
 fn interp<'db>(
@@ -540,18 +548,19 @@ fn interp<'db>(
     let tid = fault::tid();
     ctx.push(Rec::Start(key, tid));
     fault::tick(Site::BodyStart);
-    let mut f = Frame { acc: acc0, ents, syms, mine: vec![], occ: HashMap::new(), rec: ExecRec::new(key, tid), any_read: false };
+    let mut f = Frame { acc: acc0, ents, syms, mine: vec![], occ: HashMap::new(), rec: ExecRec::new(key, tid), any_read: false, dur: 3 };
     run_ops(db, ctx, &mut f, body);
     let tok = match key {
         LKey::Node(n, a) => Tok::new(&ctx.live[n as usize][a as usize]),
         _ => Tok::default(),
     };
     let out = if ret_h {
-        Out { v: f.acc, ents: f.ents, syms: f.syms, tok }
+        Out { v: f.acc, dur: f.dur, ents: f.ents, syms: f.syms, tok }
     } else {
-        Out { v: f.acc, ents: vec![], syms: vec![], tok }
+        Out { v: f.acc, dur: f.dur, ents: vec![], syms: vec![], tok }
     };
     f.rec.out = out.repr();
+    f.rec.dur = f.dur;
     ctx.push(Rec::End(Box::new(f.rec)));
     out
 }
@@ -566,6 +575,7 @@ fn src_val(s: Src, acc: u32) -> u32 {
 fn read_slot(db: &dyn Vd, ctx: &Ctx, f: &mut Frame, slot: u8, field: u8) -> u32 {
     let s = ctx.slot(slot);
     let v = if field == 0 { s.f0(db) } else { s.f1(db) };
+    f.dur = f.dur.min(ctx.field_durs.lock().unwrap()[slot as usize][field as usize]);
     if !f.rec.reads.contains(&(slot, field)) {
         f.rec.reads.push((slot, field));
     }
@@ -580,6 +590,7 @@ fn do_call<'db>(db: &'db dyn Vd, ctx: &Ctx, f: &mut Frame<'db>, node: u8, arg: S
     ctx.push(Rec::Used(LKey::Node(node, a), f.rec.tid));
     f.rec.calls.push(LKey::Node(node, a));
     f.any_read = true;
+    f.dur = f.dur.min(out.dur);
     f.ents.extend(out.ents.iter().copied());
     f.syms.extend(out.syms.iter().copied());
     out
@@ -639,7 +650,8 @@ fn run_ops<'db>(db: &'db dyn Vd, ctx: &Ctx, f: &mut Frame<'db>, ops: &[Op]) {
                 let id_v = src_val(*ident, f.acc) % VMOD;
                 let e = Ent::new(db, IV(id_v), FV(f.acc), FV(f.acc));
                 let occ = f.occ.entry(id_v).or_insert(0);
-                let made = Created { ident: id_v, occ: *occ, id: e.as_id().as_bits(), tv: f.acc, tn: f.acc, after_read: f.any_read };
+                let made = Created { ident: id_v, occ: *occ, id: e.as_id().as_bits(), tv: f.acc, tn: f.acc, after_read: f.any_read, dur: f.dur };
+                ctx.ent_durs.lock().unwrap().insert(e.as_id().as_bits(), f.dur);
                 ctx.push(Rec::Made(f.rec.key, made.clone()));
                 f.rec.created.push(made);
                 *occ += 1;
@@ -657,6 +669,7 @@ fn run_ops<'db>(db: &'db dyn Vd, ctx: &Ctx, f: &mut Frame<'db>, ops: &[Op]) {
                     f.rec.ent_reads.push((e.as_id().as_bits(), (*which).min(2)));
                     if *which != 0 {
                         f.any_read = true;
+                        f.dur = f.dur.min(ctx.ent_durs.lock().unwrap().get(&e.as_id().as_bits()).copied().unwrap_or(0));
                     }
                     f.acc = mix(f.acc, v);
                 }
@@ -667,6 +680,7 @@ fn run_ops<'db>(db: &'db dyn Vd, ctx: &Ctx, f: &mut Frame<'db>, ops: &[Op]) {
                     let out = on_ent(db, e);
                     f.rec.calls.push(LKey::OnEnt(e.as_id().as_bits()));
                     f.any_read = true;
+                    f.dur = f.dur.min(out.dur);
                     f.acc = mix(f.acc, out.v);
                 }
             }
@@ -676,6 +690,7 @@ fn run_ops<'db>(db: &'db dyn Vd, ctx: &Ctx, f: &mut Frame<'db>, ops: &[Op]) {
                     let out = on_ent_spec(db, e);
                     f.rec.calls.push(LKey::OnEntSpec(e.as_id().as_bits()));
                     f.any_read = true;
+                    f.dur = f.dur.min(out.dur);
                     f.acc = mix(f.acc, out.v);
                 }
             }
@@ -725,6 +740,7 @@ fn run_ops<'db>(db: &'db dyn Vd, ctx: &Ctx, f: &mut Frame<'db>, ops: &[Op]) {
                     };
                     f.rec.calls.push(LKey::OnSym(s.ty(), s.id()));
                     f.any_read = true;
+                    f.dur = f.dur.min(out.dur);
                     f.acc = mix(f.acc, out.v);
                 }
             }
@@ -733,6 +749,7 @@ fn run_ops<'db>(db: &'db dyn Vd, ctx: &Ctx, f: &mut Frame<'db>, ops: &[Op]) {
                 let v = ctx.cells.lock().unwrap()[*cell as usize];
                 f.rec.untracked = true;
                 f.any_read = true;
+                f.dur = 0;
                 f.acc = mix(f.acc, v);
             }
             Op::Acc => {
@@ -829,6 +846,8 @@ pub fn new_ctx(prog: Arc<Program>, cells: Vec<u32>) -> Arc<Ctx> {
         yield_hook: Mutex::new(None),
         exec_budget: AtomicUsize::new(EXEC_BUDGET),
         log_check_cancel: std::sync::atomic::AtomicBool::new(false),
+        field_durs: Mutex::new(Vec::new()),
+        ent_durs: Mutex::new(HashMap::new()),
     })
 }
 
@@ -843,6 +862,7 @@ impl World {
         for s in vals {
             let slot = Slot::builder(s[0].0, s[1].0).f0_durability(dur(s[0].1)).f1_durability(dur(s[1].1)).new(&db);
             ctx.slots.lock().unwrap().push(slot);
+            ctx.field_durs.lock().unwrap().push([s[0].1.idx() as u8, s[1].1.idx() as u8]);
         }
         for (i, n) in prog.nodes.iter().enumerate() {
             let mut row = Vec::new();
@@ -877,6 +897,8 @@ impl World {
         }
         let cells = self.ctx.cells.lock().unwrap().clone();
         let ctx = new_ctx(self.ctx.prog.clone(), cells);
+        *ctx.field_durs.lock().unwrap() = self.ctx.field_durs.lock().unwrap().clone();
+        *ctx.ent_durs.lock().unwrap() = self.ctx.ent_durs.lock().unwrap().clone();
         let c2 = ctx.clone();
         let storage = salsa::Storage::new(Some(Box::new(move |ev| c2.on_event(ev))));
         let mut db2 = VDb { storage, ctx: ctx.clone() };
@@ -929,7 +951,8 @@ impl World {
     pub fn set(&mut self, slot: u8, field: u8, val: u32, d: Option<D>) -> Result<(), Pan> {
         let s = self.ctx.slot(slot);
         let db = &mut self.db;
-        catch_unwind(AssertUnwindSafe(|| {
+        let ctx = self.ctx.clone();
+        let r = catch_unwind(AssertUnwindSafe(|| {
             match (field, d) {
                 (0, None) => s.set_f0(db).to(val),
                 (0, Some(d)) => s.set_f0(db).with_durability(dur(d)).to(val),
@@ -937,7 +960,11 @@ impl World {
                 (_, Some(d)) => s.set_f1(db).with_durability(dur(d)).to(val),
             };
         }))
-        .map_err(classify_panic)
+        .map_err(classify_panic);
+        if let (Ok(()), Some(d)) = (&r, d) {
+            ctx.field_durs.lock().unwrap()[slot as usize][field as usize] = d.idx() as u8;
+        }
+        r
     }
 
     pub fn synth(&mut self, d: D) -> Result<(), Pan> {
